@@ -296,9 +296,18 @@ class Site:
         return '<%s bb%d %s @%s>' % (self.body.path, self.block, self.callee, self.where)
 
 
-FACTS = [None]
+import threading
+
+
+class _PerThread(threading.local):
+    # the selftest analyses several scratch trees in parallel threads: the tree being analysed is per thread
+    def __init__(self):
+        self.facts = None
+        self.summaries = {}
+
+
+_TL = _PerThread()
 _KNOWN = [None]
-_SUMMARIES = {}
 
 
 def known_fns():
@@ -326,10 +335,11 @@ def subst_params(t, args):
 
 def inline_summary(path, depth=0):
     """(return term, effects) of a new, synchronous, straight-line crate-local function, else None"""
+    _SUMMARIES = _TL.summaries
     if path in _SUMMARIES:
         return _SUMMARIES[path]
     _SUMMARIES[path] = None
-    facts = FACTS[0]
+    facts = _TL.facts
     if facts is None or depth > 2 or path in known_fns():
         return None
     b = facts.body(path)
@@ -351,8 +361,8 @@ class Ctx:
     def __init__(self, facts):
         self.f = facts
         self._calls = None
-        FACTS[0] = facts
-        _SUMMARIES.clear()
+        _TL.facts = facts
+        _TL.summaries = {}
 
     def body(self, path):
         b = self.f.body(path)
